@@ -48,6 +48,9 @@ func main() {
 		if run.Thorough() {
 			jobs = append(jobs, job(&lockh.LeaseScenario{Kind: "kept", Lease: L, Holds: 2.5, RenewFaults: true}, vsched.Config{P: 0, F: 2, Preempt: fine, MaxSteps: 60000}))
 		}
+		for _, h := range []float64{0.3, 0.8, 1.6} {
+			jobs = append(jobs, job(&lockh.LeaseScenario{Kind: "handover", Lease: L, Holds: h}, vsched.Config{P: pk + 1, Preempt: fine, MaxSteps: 60000}))
+		}
 		for _, ph := range []float64{0, 0.25, 0.5, 0.75, 0.999, 1.0} {
 			jobs = append(jobs, job(&lockh.LeaseScenario{Kind: "lapse", Lease: L, DiePhase: ph}, vsched.Config{P: pl, Preempt: fine, MaxSteps: 60000}))
 		}
@@ -64,6 +67,6 @@ func main() {
 	sdrv.Main(run, jobs, sdrv.Options{
 		Budget: budget,
 		Bounds: map[string]any{"leases": []string{"30ms", "10s", "100s (> the 30s idle timeout of the timer pool)"}, "P_kept": pk + 1, "P_kept_with_fault": pf, "F": 1, "P_lapse": pl, "P_diesout": pd},
-		Rule:   "virtual time, maximal-progress clock, real kvlock+timeout+inmem. kept: holder holds 3.5 leases, a contender of another provider waits in LockWithCtx the whole time, a prober of a third provider checks the record (exists, ExpiresAt > now) and TryLocks every quarter lease; with renewal faults every renewal call may be lost (request or reply), budget F. lapse: the holder's process dies (its storage calls vanish) at 6 scripted phases of the renewal cycle and at any scheduling point (pseudo thread); the waiting contender must hold the lock within lease + one renewal period. diesout: Unlock exactly when the renewal timer fires (every order within the preemption bound), then a second tenure on the same / another Locker; at most one renewal attempt reaches the storage after Unlock returned, none succeeds, and at quiescence no timer is armed and every timer goroutine has exited",
+		Rule:   "virtual time, maximal-progress clock, real kvlock+timeout+inmem. handover: a contender that has been waiting for 0.3 / 0.8 / 1.6 leases takes over and holds for 2.5 leases under the same record/TryLock probes (its record must be fresh). kept: holder holds 3.5 leases, a contender of another provider waits in LockWithCtx the whole time, a prober of a third provider checks the record (exists, ExpiresAt > now) and TryLocks every quarter lease; with renewal faults every renewal call may be lost (request or reply), budget F. lapse: the holder's process dies (its storage calls vanish) at 6 scripted phases of the renewal cycle and at any scheduling point (pseudo thread); the waiting contender must hold the lock within lease + one renewal period. diesout: Unlock exactly when the renewal timer fires (every order within the preemption bound), then a second tenure on the same / another Locker; at most one renewal attempt reaches the storage after Unlock returned, none succeeds, and at quiescence no timer is armed and every timer goroutine has exited",
 	})
 }
